@@ -30,7 +30,8 @@ CHECKS = {
     "C12": dict(category="proof",
                 text="Integer theorems for all values (no enumeration): microsecond write/read round trip for every datetime incl. pre-1904 and far dates "
                      "(encodeFloor_decode), tolerance band for double-precision writers, conversion within one unit and monotone for s/ms/us/ns, scalar = array "
-                     "(limb multiplication exact for all 64-bit operands), raw bytes round trip in both byte orders, time_track over any field; constants are "
+                     "(limb multiplication exact for all 64-bit operands), raw bytes round trip in both byte orders, time_track over any field, the absolute track within one unit of the relative one "
+                     "(absolute_track_within_one_unit; the source shape of time_track is re-extracted and tied, time_track_source_tied); constants are "
                      "re-extracted from the source on every run (constants_tied). Tied to the code by a correspondence check of the executable model against "
                      "TimeStamp / TdmsTimestamp / TimestampArray (thorough: all 10^6 microsecond values).",
                 level_note=COMMON_NOTE + "np.linspace and float multiplication in time_track are measured, not proved.",
